@@ -209,6 +209,12 @@ fn canonical(prop: &str, thorough: bool, seed: u64, rep: &mut Report) {
             // blind to whitespace / escape spelling: print differently, parse, canonicalize
             let pretty = to_real(&v).pretty_print().to_string();
             if let Ok((mut back, _)) = Value::parse_str(&pretty) { back.canonicalize(); if back.compact_print().to_string() != got { rep.violation("canonical output blind to whitespace", "spacing", format!("{:?}", v), "".into()); } }
+            // the same value written differently (whitespace, escape spellings, number spellings, member order, all at once)
+            let mut doc = String::new(); variant_text(&shuffled, &mut rng, &mut doc);
+            match Value::parse_str(&doc) {
+                Ok((mut back, _)) => { back.canonicalize(); let got4 = back.compact_print().to_string(); if got4 != got { rep.violation("canonical output blind to whitespace, escape spelling, number spelling and member order", "rewriting", format!("{:?} written as {:?}", v, doc), format!("{:?} vs {:?}", got, got4)); } }
+                Err(e) => rep.violation("(reference self-check) a rewriting of the document parses", "rewriting-parse", doc.clone(), format!("{:?}", e)),
+            }
             // nothing else changes: structure, strings, booleans, nulls; and still queryable by key
             let want_shape = ref_canon(&v, &|s: &str| s.to_string());
             let got_shape = by_key(&strip_numbers(&from_real(&once))); if got_shape != by_key(&strip_numbers(&want_shape)) { rep.violation("canonicalization preserves structure/strings/literals", "shape", format!("{:?}", v), format!("{:?}", from_real(&once))); }
@@ -285,6 +291,35 @@ fn respell(v: &RefValue, rng: &mut Rng) -> RefValue {
 const LONG_NUMBERS: [&str; 10] = ["62366.589399033819066834200497105", "2301321284722629935389", "63868144857173796.005437586005", "9007199254740993.0000000000000000001",
     "0.1000000000000000055511151231257827021181583404541015625", "13900427.572972546332283705926", "70.299427235732243027308e-4", "-532091418514.8731994837012225736992054048",
     "48705116.30047042667928001927982679829e1", "1.00000000000000011102230246251565404236316680908203125"];
+
+/// another document for the same value: random insignificant whitespace, every string character in a
+/// randomly chosen spelling (raw, `\\uXXXX` -- a surrogate pair of escapes beyond the BMP --, or a short
+/// escape where one exists), numbers respelled exactly; member order as given
+fn variant_text(v: &RefValue, rng: &mut Rng, out: &mut String) {
+    fn wsp(rng: &mut Rng, out: &mut String) { for _ in 0..rng.below(3) { out.push([' ', '\n', '\t', '\r'][rng.below(4)]); } }
+    fn string(s: &str, rng: &mut Rng, out: &mut String) {
+        out.push('"');
+        for c in s.chars() {
+            let must = c == '"' || c == '\\' || (c as u32) < 0x20;
+            match rng.below(3) {
+                0 if !must => out.push(c),
+                1 => { let short = match c { '"' => Some("\\\""), '\\' => Some("\\\\"), '/' => Some("\\/"), '\u{8}' => Some("\\b"), '\u{c}' => Some("\\f"), '\n' => Some("\\n"), '\r' => Some("\\r"), '\t' => Some("\\t"), _ => None };
+                       match short { Some(e) => out.push_str(e), None => if must { out.push_str(&format!("\\u{:04X}", c as u32)) } else { out.push(c) } } }
+                _ => { let mut buf = [0u16; 2]; for u in c.encode_utf16(&mut buf) { if rng.below(2) == 0 { out.push_str(&format!("\\u{:04x}", u)) } else { out.push_str(&format!("\\u{:04X}", u)) } } }
+            }
+        }
+        out.push('"');
+    }
+    wsp(rng, out);
+    match v {
+        RefValue::Null => out.push_str("null"), RefValue::Bool(b) => out.push_str(if *b { "true" } else { "false" }),
+        RefValue::Num(n) => out.push_str(&respell_number(n, rng)),
+        RefValue::Str(s) => string(s, rng, out),
+        RefValue::Arr(a) => { out.push('['); for (i, x) in a.iter().enumerate() { if i > 0 { out.push(','); } variant_text(x, rng, out); } wsp(rng, out); out.push(']'); }
+        RefValue::Obj(es) => { out.push('{'); for (i, (k, x)) in es.iter().enumerate() { if i > 0 { out.push(','); } wsp(rng, out); string(k, rng, out); wsp(rng, out); out.push(':'); variant_text(x, rng, out); } wsp(rng, out); out.push('}'); }
+    }
+    wsp(rng, out);
+}
 
 fn shuffle(v: &RefValue, rng: &mut Rng) -> RefValue {
     match v {
